@@ -128,3 +128,23 @@ contract(M + 'filter', params=dict(self=CSSMATCH), returns=SEQ_NODE, requires=['
          ensures=[f'result == filt_from({CTX}, own_contents(self, self.tag, False), 0)'],
          comps={1: dict(var='tag', fold='filt_from', args=CTX)},
          properties=['C03'])
+
+contract('soupsieve.css_match._DocumentNav.assert_valid_input', params=dict(tag=NODE), returns=None,
+         raises={'TypeError': 'iff:not is_tag(tag)'}, properties=['C08', 'C03'])
+contract(M + '__init__', params=dict(self=CSSMATCH, selectors=SELLIST, scope=NODE, namespaces=TOpt(NSMAP), flags=INT), returns=None,
+         raises={'TypeError': 'iff:not is_tag(scope)'},
+         ensures=['self.tag == scope', 'self.selectors == selectors', 'self.flags == flags', 'not self.iframe_restrict',
+                  'self.namespaces == (html_free_map() if is_none(namespaces) else val(namespaces))',
+                  # C03.O6: the root is the top ancestor unless that is the document object, then the document's first element child
+                  'self.root == (top_of(scope) if not is_doc(top_of(scope)) else first_or_none(tag_children(self, top_of(scope), False)))',
+                  # the scope is the call target, or the root when the call was made on the document object
+                  'self.scope == (scope if not same(scope, top_of(scope)) else self.root)',
+                  # C11.O1: document kind
+                  'self.is_xml == is_xml_flag(top_of(scope))',
+                  'self.has_html_namespace == (self.root is not None and namespace(self.root) == NS_XHTML)',
+                  'self.is_html == ((not self.is_xml) or self.has_html_namespace)'],
+         locals=dict(doc=NODE, parent=NODE, root=NODE),
+         loops={1: dict(invariant=['doc is not None', 'top_of(doc) == top_of(scope)', 'parent == parent(doc)'],
+                        decreases='0 if parent is None else depth(parent) + 1'),
+                2: dict(var='child', invariant=['root is None', '_i2 == 0'])},
+         properties=['C03', 'C11'])
